@@ -26,6 +26,30 @@ Fixpoint c07_points (off : Z) (l : list (hev * obs)) : list (Z * Z * Z * Z * boo
   | (_, o) :: r => c07_points (o_offset o) r
   end.
 
+(* the cycles that PERFORM a raise, as (raises after it, curve value, request): the request issued there is the stalled
+   request plus one, i.e. one above what the curve value alone gives with the old floor. Against the ordinary points with
+   the new floor it may therefore be at most one step too high, and never too low. *)
+Fixpoint c07_raise_points (off : Z) (l : list (hev * obs)) : list (Z * Z * Z) :=
+  match l with
+  | [] => []
+  | (Cycle i, o) :: r =>
+      if negb (o_err o =? 0) then []
+      else match ci_curve i, o_req o with
+           | Some v, Some q =>
+               if off <? o_offset o then (o_offset o, v, q) :: c07_raise_points (o_offset o) r
+               else c07_raise_points (o_offset o) r
+           | _, _ => c07_raise_points (o_offset o) r
+           end
+  | (_, o) :: r => c07_raise_points (o_offset o) r
+  end.
+
+Definition c07_raise_ok (rps : list (Z * Z * Z)) (pts : list (Z * Z * Z * Z * bool)) : bool :=
+  forallb (fun rp => let '(o1, v1, r1) := rp in
+    forallb (fun p2 => let '(o2, v2, r2, w2, k2) := p2 in
+      if o1 =? o2
+      then (if v1 <=? v2 then r1 - 1 <=? r2 else true) && (if v2 <=? v1 then r2 <=? r1 else true)
+      else true) pts) rps.
+
 Fixpoint nondec_snd (pm : list (Z * Z)) : bool :=
   match pm with
   | (_, v1) :: (((_, v2) :: _) as r) => (v1 <=? v2) && nondec_snd r
@@ -42,6 +66,7 @@ Definition holdsb (c : case) : bool :=
   match k_alg c with
   | Direct None =>
       c07_pairs_ok (nondec_snd (k_pm c) && (k_q c =? 1)) (c07_points 0 (zip (k_hist c) (k_obs c)))
+      && c07_raise_ok (c07_raise_points 0 (zip (k_hist c) (k_obs c))) (c07_points 0 (zip (k_hist c) (k_obs c)))
   | _ => true
   end.
 
